@@ -6,6 +6,7 @@ string tag;      // identity tag for logs
 mapping scripts; // hook name -> script
 
 string me() { return tag ? tag : file_name(this_object()); }
+int me_tagged() { return tag ? 1 : 0; }
 
 object ob_of(string n) {
   object o;
@@ -83,10 +84,84 @@ void cof4(string id, string script) { co_fire(id, script); }
 void cof5(string id, string script) { co_fire(id, script); }
 void got_input(string s, string script) { rec("INPUT " + me() + " " + s); run(script); }
 void got_char(string s, string script) { rec("CHAR " + me() + " " + s); run(script); }
-void set_tag(string t) { tag = t; master()->reg(t, this_object()); }
+void set_tag(string t) { tag = t; master()->reg(t, this_object()); master()->regname(t, file_name(this_object())); }
 void set_hb(int n) { int r; r = set_heart_beat(n); rec("HBSET " + me() + " " + n + " q=" + query_heart_beat(this_object())); }
 void set_script(string h, string s) { if (!scripts) scripts = ([ ]); scripts[h] = s; }
 void do_move(object dest) { move_object(dest); }
+
+// C08: LPC-visible view of the object world, one record
+string wtag(object o) { string t; if (!o) return "0"; t = o->me(); return t ? t : file_name(o); }
+void wdump() {
+  mapping reg, names; string t, r; object q, x; mixed *h; int i;
+  reg = master()->query_registry(); names = master()->query_regnames();
+  r = "WDUMP";
+  if (reg) foreach (t in sort_array(keys(reg), 1)) {
+    q = reg[t];
+    if (!q) { r += " " + t + "=0"; continue; }
+    r += " " + t + "=1," + wtag(environment(q)) + ",";
+    foreach (x in all_inventory(q)) r += wtag(x) + "+";
+    r += "," + living(q) + "," + query_heart_beat(q) + "," + (interactive(q) ? 1 : 0);
+  }
+  if (names) foreach (t in sort_array(keys(names), 1)) { x = find_object(names[t]); r += " F:" + t + "=" + names[t] + "=" + wtag(x); }
+  r += " O:"; foreach (x in objects()) r += wtag(x) + "+";
+  r += " L:"; foreach (x in livings()) r += wtag(x) + "+";
+  r += " U:"; foreach (x in users()) r += wtag(x) + "+";
+  if (reg) foreach (t in sort_array(keys(reg), 1)) {
+    q = reg[t];
+    if (!q) continue;
+    h = q->query_held();
+    if (!h || !sizeof(h)) continue;
+    r += " H:" + t + "=";
+    for (i = 0; i < sizeof(h); i++) r += (objectp(h[i]) ? wtag(h[i]) : "0") + "+";
+  }
+  rec(r);
+}
+mixed *query_held() { return held; }
+
+// object-world operations (C08)
+void wop(string *a) {
+  string v; object o;
+  v = a[0];
+  switch (v) {
+  case "wclone":  // wclone <file> <tag>
+  case "wload":   // wload <file> <tag>
+    {
+      mixed e; object q;
+      a[2] = master()->fresh_tag(a[2]);   // a hook that fires again makes a fresh tag
+      if (v == "wclone") e = catch(q = clone_object(a[1])); else e = catch(q = load_object(a[1]));
+      if (q && !q->me_tagged()) q->set_tag(a[2]);
+      rec("WNEW " + a[2] + " " + v + " " + a[1] + " ok=" + (q ? file_name(q) : "0") + " tag=" + (q ? q->me() : "0") + " err=" + (e ? 1 : 0));
+    }
+    break;
+  case "whold":   // whold <ob>: keep a reference to <ob> in this object
+    o = ob_of(a[1]);
+    if (!held) held = ({ });
+    if (o) { held += ({ o }); rec("HOLD " + me() + " " + o->me()); }
+    break;
+  case "wdump":
+    wdump();
+    break;
+  case "walk":    // ask the simulator to walk the driver's object structures right now
+    rec("WALK " + me());
+    break;
+  case "lname":   // lname <name>: set_living_name
+    set_living_name(a[1]);
+    break;
+  case "wmove":   // wmove <what> <dest>: move_object with a record of the outcome
+    {
+      mixed e; object d;
+      o = ob_of(a[1]); d = ob_of(a[2]);
+      if (o && d) { e = catch(o->do_move(d)); rec("WMOVE " + a[1] + " " + a[2] + " err=" + (e ? 1 : 0)); }
+      else rec("WMOVE " + a[1] + " " + a[2] + " skip");
+    }
+    break;
+  case "wdest":   // wdest <ob>
+    o = ob_of(a[1]);
+    if (o) { string t; mixed e; t = o->me(); rec("WDEST " + t); e = catch(destruct(o)); rec("WDESTDONE " + t + " err=" + (e ? 1 : 0)); }
+    else rec("WDEST 0");
+    break;
+  }
+}
 
 // uid operations (separate function: the command interpreter is at the local variable limit)
 void uop(string *a) {
@@ -373,6 +448,9 @@ void do_op(string op) {
       rec("FEDONE " + a[1] + " " + (e ? "err" : (stringp(r) ? "str" : (arrayp(r) ? "arr" : (objectp(r) ? "ob" : "" + r)))));
       if (objectp(r) && r != this_object()) destruct(r);
     }
+    break;
+  case "wclone": case "wload": case "whold": case "wdump": case "walk": case "lname": case "wmove": case "wdest":
+    wop(a);
     break;
   case "uclone": case "uload": case "useteuid": case "uexport": case "uids": case "ucall": case "ucf": case "uvs": case "umclone":
     uop(a);
